@@ -153,7 +153,7 @@ var c03Keys = []string{"a", "b", "c", "d", "e", "f", "g", "zz", "k1", "10", "9",
 func genMapDesc(t *rapid.T, depth int, label string) *E {
 	n := rapid.IntRange(2, 8).Draw(t, label+"n")
 	keys := rapid.Permutation(c03Keys).Draw(t, label+"keys")[:n]
-	typ := rapid.SampledFrom([]string{"", "", "map[string]int", "map[string]string", "map[int]string", "map[iface]", "map[int64]string", "map[uint64]string", "map[mixed]", "map[mixed2]", "map[structkey]", "map[arraykey]"}).Draw(t, label+"typ")
+	typ := rapid.SampledFrom([]string{"", "", "map[string]int", "map[string]string", "map[int]string", "map[iface]", "map[int64]string", "map[uint64]string", "map[mixed]", "map[mixed2]", "map[structkey]", "map[arraykey]", "map[widths]"}).Draw(t, label+"typ")
 	vals := make([]*E, n)
 	for i := range vals {
 		switch {
@@ -610,3 +610,73 @@ func TestC03MacroNames(t *testing.T) {
 }
 
 func init() { reg("C03.macroname", checkC03MacroName) }
+
+// ---- dates and timestamps held in other Go types ------------------------------------------------------
+
+type C03DateKindCase struct {
+	Kind string `json:"kind"`
+	Unix int64  `json:"unix"`
+}
+
+func c03DateKindValue(kind string, u int64) interface{} {
+	tm := time.Unix(u, 0).UTC()
+	ptm := &tm
+	switch kind {
+	case "*time.Time":
+		return ptm
+	case "**time.Time":
+		return &ptm
+	case "int32":
+		return int32(u)
+	case "uint32":
+		return uint32(u)
+	case "uint64":
+		return uint64(u)
+	case "uint":
+		return uint(u)
+	case "named":
+		return zNamedInt(u)
+	case "*int64":
+		return &u
+	case "float32":
+		return float32(u)
+	}
+	return nil
+}
+
+// checkC03DateKind: a date is the date it is, whatever Go type carries it: a pointer to a
+// time.Time prints like the time.Time, a timestamp of another integer width like the int64.
+func checkC03DateKind(c C03DateKindCase) error {
+	u := c.Unix
+	if c.Kind == "float32" {
+		u = int64(float32(c.Unix)) // the instant the float32 holds
+	}
+	var ref interface{} = u
+	if strings.Contains(c.Kind, "time.Time") {
+		ref = time.Unix(u, 0).UTC()
+	}
+	const src = "{{ D|date('Y-m-d H:i:s') }}|{{ D|date('D, d M y') }}"
+	want := render1(src, map[string]interface{}{"D": ref})
+	got := render1(src, map[string]interface{}{"D": c03DateKindValue(c.Kind, c.Unix)})
+	if want.Failed() || got.Failed() || got.Out != want.Out {
+		return fmt.Errorf("%s with D = %s holding the instant %d gives %v; the same instant as %T gives %v", src, c.Kind, u, got, ref, want)
+	}
+	return nil
+}
+
+func TestC03DateKinds(t *testing.T) {
+	r := NewRec(t, "C03", "exhaustive: the date filter on 9 Go types that carry a date (pointer and pointer to pointer to time.Time, int32, uint32, uint64, uint, a named int, *int64, float32) x 4 instants in the past; oracle: the output for the same instant as time.Time / int64 (what the current time is must not matter); all cases non-trivial")
+	defer r.Flush()
+	r.SetExhaustive()
+	for _, kind := range []string{"*time.Time", "**time.Time", "int32", "uint32", "uint64", "uint", "named", "*int64", "float32"} {
+		for _, u := range []int64{1709647629, 978307200, 86400, 1234567890} {
+			c := C03DateKindCase{Kind: kind, Unix: u}
+			r.Case(fmt.Sprint(kind, u), true, c)
+			if err := checkC03DateKind(c); err != nil {
+				r.FailEnumKey(t, "C03.datekind", kind, c, err)
+			}
+		}
+	}
+}
+
+func init() { reg("C03.datekind", checkC03DateKind) }
